@@ -10,6 +10,8 @@
 From AM.Model Require Import Base Path Targets Deb822 Render.
 From AM.Lemmas Require Import Deb822Lemmas RenderLemmas SourcesLemmas SourcesRender.
 From Coq Require Import Permutation.
+From AM.Model Require Import Download PoolQueue.
+From AM.Lemmas Require Import PoolQueueLemmas.
 Open Scope string_scope.
 Open Scope list_scope.
 
@@ -192,3 +194,20 @@ Example sources_bytes_example :
      {| pe_path := parse "pool/main/a/alpha/alpha_1.0-1.debian.tar.xz"; pe_size := 5%Z; pe_ign := false |}] /\
   parse_sources no_filters [] (parse "/r") (render_sources_spaced ss) = POk (sindex_entries no_filters [] (parse "/r") ss).
 Proof. vm_compute. repeat split; reflexivity. Qed.
+
+(* From the parsed entries to the download queue (Model/PoolQueue.v: one dictionary per parser over all its index
+   files, last entry per path wins; the Sources and the Packages results in one set): every path some index
+   lists is queued, as a size-checked single-path file, and nothing is queued that no index lists. *)
+Theorem pool_queue_covers_every_listed_path :
+  forall srcs pkgs e,
+  In e (List.concat srcs ++ List.concat pkgs) ->
+  exists f, In f (pool_queue srcs pkgs) /\ all_paths f = [render (pe_path (qe e))].
+Proof. exact pool_queue_complete. Qed.
+Print Assumptions pool_queue_covers_every_listed_path.
+
+Theorem pool_queue_lists_nothing_else :
+  forall srcs pkgs f,
+  In f (pool_queue srcs pkgs) ->
+  exists e, In e (List.concat srcs ++ List.concat pkgs) /\ f = pool_file_of e.
+Proof. exact pool_queue_sound. Qed.
+Print Assumptions pool_queue_lists_nothing_else.
